@@ -31,6 +31,8 @@ type fsCase struct {
 	Spill    bool   `json:"spill"`
 	Entry    string `json:"entry"`
 	Limit    string `json:"limit"`
+	Audit    bool   `json:"audit"`
+	Arm      string `json:"arm"`
 	NFiles   int    `json:"nfiles"`
 	Keep     string `json:"keep"`
 	Relevant bool   `json:"relevant"`
@@ -122,6 +124,9 @@ SecUploadKeepFiles %s
 SecRule ARGS_POST:field1 "@streq value1" "id:10,phase:2,pass,%s"
 SecAction "id:20,phase:5,pass,nolog"
 `, limit, mem, up, c.Keep, logAct)
+	if c.Audit {
+		text += fmt.Sprintf("SecAuditEngine On\nSecAuditLogParts ABCZ\nSecAuditLogType Serial\nSecAuditLogFormat json\nSecAuditLog %s\n", filepath.Join(up, "audit.log"))
+	}
 	var logbuf bytes.Buffer
 	logger := debuglog.Default().WithOutput(&logbuf).WithLevel(debuglog.LevelError)
 	// SecTmpDir is not implemented by the library: the spill directory is os.TempDir() at NewWAF time
@@ -139,7 +144,11 @@ SecAction "id:20,phase:5,pass,nolog"
 	}
 	defer closeAny(w)
 	counts := map[string]int{}
+	armed := c.Arm != "logging"
 	verif.FaultHook = func(point string) error {
+		if !armed {
+			return nil
+		}
 		counts[point]++
 		if point == c.Point && counts[point] == c.Nth {
 			o.HookFired = true
@@ -199,6 +208,7 @@ SecAction "id:20,phase:5,pass,nolog"
 		if c.Steps >= 3 {
 			tx.ProcessResponseHeaders(200, "HTTP/1.1")
 			_, _ = tx.ProcessResponseBody()
+			armed = true
 			tx.ProcessLogging()
 		}
 		if err := tx.Close(); err != nil {
